@@ -7,11 +7,11 @@
 
 use anda_kip::Json;
 use serde_json::json;
-use std::collections::BTreeMap;
 use vcore::ctlstore::Content;
 use vcore::{Run, Violation, util};
 use vnexus::dump::{self, Dump};
 use vnexus::fixture::{Mode, Nx, Outcome, Stmt, Who, World};
+use vnexus::oracle::{Judged, check_step, mode_name};
 
 struct Template {
     name: &'static str,
@@ -245,14 +245,6 @@ struct Step {
     mode: Mode,
 }
 
-fn mode_name(mode: Mode) -> &'static str {
-    match mode {
-        Mode::Commit => "commit",
-        Mode::DryRun => "dry_run",
-        Mode::Preview => "preview",
-    }
-}
-
 fn mode_from(name: &str) -> Mode {
     match name {
         "commit" => Mode::Commit,
@@ -291,229 +283,6 @@ fn replay_json(world: &str, steps: &[Step], tpl: &[Template]) -> Json {
         })).collect::<Vec<_>>(),
         "note": "parameters (:a, :p, :as1, ...) are re-resolved from the state before each statement, as in dump::params_from",
     })
-}
-
-/// (iii) one element per tuple, one Concept per (type, key).
-fn uniqueness(views: &BTreeMap<String, Json>) -> Vec<(String, String)> {
-    let mut out = Vec::new();
-    let mut tuples: BTreeMap<String, String> = BTreeMap::new();
-    let mut keys: BTreeMap<(String, String), String> = BTreeMap::new();
-    for (id, view) in views {
-        let state = view["_system"]["state"].as_str().unwrap_or("");
-        if state == "pending" || state == "purged" {
-            continue;
-        }
-        if id.starts_with("P-") {
-            let tuple = format!("{}|{}|{}", view["subject"], view["predicate_ref"], view["object"]);
-            if let Some(other) = tuples.insert(tuple.clone(), id.clone()) {
-                out.push(("duplicate-tuple".to_string(), format!("{other} and {id} are both {tuple}")));
-            }
-        }
-        if id.starts_with("C-") {
-            let key = view["key"].as_str().unwrap_or("");
-            if key.is_empty() {
-                continue;
-            }
-            let scope = (view["schema_ref"].as_str().unwrap_or("").to_string(), key.to_string());
-            if let Some(other) = keys.insert(scope.clone(), id.clone()) {
-                out.push(("duplicate-key".to_string(), format!("{other} and {id} both carry {scope:?}")));
-            }
-        }
-    }
-    out
-}
-
-/// The view without the members a commit stamps on every row it writes.
-fn strip_stamp(view: &Json) -> Json {
-    let mut view = view.clone();
-    if let Some(system) = view.get_mut("_system").and_then(Json::as_object_mut) {
-        for key in ["version", "updated_at", "updated_tx", "space_seq", "origin"] {
-            system.remove(key);
-        }
-    }
-    view
-}
-
-fn journal_rows(d: &Dump) -> Vec<Json> {
-    d.get("HISTORY SPACE").and_then(|a| a["ok"].as_array().cloned()).unwrap_or_default()
-}
-
-#[allow(clippy::too_many_arguments)]
-fn check_step(
-    tpl: &Template,
-    mode: Mode,
-    outcome: &Outcome,
-    seq_before: u64,
-    seq_after: u64,
-    before: &Dump,
-    after: &Dump,
-    replay: &Json,
-) -> (Vec<Violation>, bool) {
-    let mut violations = Vec::new();
-    let labels = dump::diff(before, after);
-    let changed = !labels.is_empty();
-    let mut violate = |signature: String, summary: String, extra: Json| {
-        let mut replay = replay.clone();
-        replay["observed"] = extra;
-        violations.push(Violation { signature, summary, replay });
-    };
-    let views_before = dump::by_id(before);
-    let views_after = dump::by_id(after);
-
-    match outcome {
-        // (i) refused or dry run: nothing observable moved.
-        Outcome::Refused { .. } | Outcome::Dry => {
-            if changed {
-                let class = dump::diff_class(&labels);
-                let what = if class == "pending-shells-only" { "leaves-pending-shells" } else { "leaves-rows" };
-                let lead = match (mode, outcome) {
-                    (Mode::Commit, _) => "refused",
-                    (Mode::DryRun, Outcome::Dry) => "dry-run",
-                    (Mode::DryRun, _) => "refused-dry-run",
-                    (Mode::Preview, Outcome::Dry) => "preview",
-                    (Mode::Preview, _) => "refused-preview",
-                };
-                let new_ids: Vec<&String> = views_after.keys().filter(|id| !views_before.contains_key(*id)).collect();
-                violate(
-                    format!("C17|{lead}-{what}|{}|{}", tpl.shape, outcome.label().replace("refused:", "")),
-                    format!(
-                        "statement `{}` ({}) ended {} but the observable state changed [{}]: {} answers differ, e.g. {:?}; elements that appeared: {:?}",
-                        tpl.name, mode_name(mode), outcome.label(), class, labels.len(),
-                        labels.iter().take(3).collect::<Vec<_>>(), new_ids
-                    ),
-                    json!({"outcome": outcome.label(), "diff_class": class, "differing": labels.iter().take(12).collect::<Vec<_>>(),
-                           "before": labels.iter().take(4).map(|l| before.get(l)).collect::<Vec<_>>(),
-                           "after": labels.iter().take(4).map(|l| after.get(l)).collect::<Vec<_>>()}),
-                );
-            }
-            if seq_after < seq_before || seq_after > seq_before + 1 {
-                violate(
-                    format!("C17|sequence-counter-moved-by-{}|{}", seq_after as i64 - seq_before as i64, tpl.shape),
-                    format!("a refused/dry statement moved the Space sequence from {seq_before} to {seq_after}"),
-                    json!({}),
-                );
-            }
-        }
-        // (ii) committed: one fresh sequence, one journal row, version +1 once.
-        Outcome::Committed { seq, tx, .. } | Outcome::NoEffect { seq, tx, .. } => {
-            let max_journal = journal_rows(before).iter().filter_map(|r| r["space_seq"].as_u64()).max().unwrap_or(0);
-            if *seq <= seq_before || *seq <= max_journal || seq_after != *seq {
-                violate(
-                    format!("C17|sequence-not-fresh|{}", tpl.shape),
-                    format!("commit got sequence {seq}; Space was at {seq_before} (journal max {max_journal}) and is at {seq_after}"),
-                    json!({}),
-                );
-            }
-            let rows_before = journal_rows(before);
-            let rows_after = journal_rows(after);
-            let fresh: Vec<&Json> = rows_after.iter().filter(|r| !rows_before.contains(r)).collect();
-            if rows_after.len() != rows_before.len() + 1
-                || fresh.len() != 1
-                || fresh[0]["space_seq"].as_u64() != Some(*seq)
-                || fresh[0]["tx_id"].as_str() != Some(tx.as_str())
-            {
-                violate(
-                    format!("C17|journal-not-one-row|{}", tpl.shape),
-                    format!("a commit at {seq} must add exactly one journal row for it; journal went {} -> {} rows", rows_before.len(), rows_after.len()),
-                    json!({"fresh": fresh}),
-                );
-            }
-            for (id, view) in &views_after {
-                let version = view["_system"]["version"].as_u64().unwrap_or(0);
-                match views_before.get(id) {
-                    None => {
-                        if version != 1 {
-                            violate(
-                                format!("C17|new-element-version-not-1|{}", tpl.shape),
-                                format!("{id} was created by this statement at version {version}"),
-                                json!({"after": view}),
-                            );
-                        }
-                        if matches!(outcome, Outcome::NoEffect { .. }) {
-                            violate(
-                                format!("C17|no-effect-created-element|{}", tpl.shape),
-                                format!("a no_effect receipt, yet {id} appeared"),
-                                json!({"after": view}),
-                            );
-                        }
-                    }
-                    Some(old) if old != view => {
-                        let was = old["_system"]["version"].as_u64().unwrap_or(0);
-                        // An element whose every member outside the commit
-                        // stamp is unchanged was not changed: it keeps its version.
-                        if strip_stamp(old) == strip_stamp(view) && version != was {
-                            violate(
-                                format!("C17|version-burned-without-change|{}", tpl.shape),
-                                format!("{id} is identical before and after except for its commit stamp, yet went from version {was} to {version}"),
-                                json!({"before": old, "after": view}),
-                            );
-                            continue;
-                        }
-                        if version != was + 1 {
-                            violate(
-                                format!("C17|version-not-plus-one|{}", tpl.shape),
-                                format!("{id} changed in one statement and went from version {was} to {version}"),
-                                json!({"before": old, "after": view}),
-                            );
-                        }
-                        if matches!(outcome, Outcome::NoEffect { .. }) {
-                            violate(
-                                format!("C17|no-effect-changed-element|{}", tpl.shape),
-                                format!("a no_effect receipt, yet {id} changed"),
-                                json!({"before": old, "after": view}),
-                            );
-                        }
-                    }
-                    Some(_) => {}
-                }
-            }
-            // A commit does not rewrite the past: every AS OF answer at an
-            // earlier sequence is unchanged — except that an explicit PURGE
-            // removes the purged element (and nothing else) from it.
-            let purged: Vec<String> = fresh
-                .iter()
-                .flat_map(|row| row["changes"].as_array().cloned().unwrap_or_default())
-                .filter(|change| change["op"] == json!("purge"))
-                .filter_map(|change| change["id"].as_str().map(|id| format!("\"{id}\"")))
-                .collect();
-            let without_purged = |answer: &Json| -> Json {
-                match answer["ok"].as_array() {
-                    Some(rows) if !purged.is_empty() => Json::Array(
-                        rows.iter().filter(|row| { let text = row.to_string(); !purged.iter().any(|id| text.contains(id)) }).cloned().collect(),
-                    ),
-                    _ => answer.clone(),
-                }
-            };
-            for label in &labels {
-                if !label.contains(" AS OF SEQ ") || (!purged.is_empty() && label.starts_with("FIND(COUNT")) {
-                    continue;
-                }
-                let (Some(was), Some(is)) = (before.get(label), after.get(label)) else { continue };
-                if without_purged(was) != without_purged(is) {
-                    violate(
-                        format!("C17|commit-rewrote-the-past|{}", tpl.shape),
-                        format!("`{label}` answered differently after the commit at {seq} (purged by it: {purged:?})"),
-                        json!({"label": label, "before": was, "after": is}),
-                    );
-                    break;
-                }
-            }
-            for id in views_before.keys() {
-                if !views_after.contains_key(id) {
-                    violate(
-                        format!("C17|element-vanished|{}", tpl.shape),
-                        format!("{id} was observable before the commit and no query shows it after"),
-                        json!({"before": views_before[id]}),
-                    );
-                }
-            }
-        }
-    }
-    // (iii) identity, after every step.
-    for (kind, detail) in uniqueness(&views_after) {
-        violate(format!("C17|{kind}|{}", tpl.shape), format!("after `{}`: {detail}", tpl.name), json!({}));
-    }
-    (violations, changed)
 }
 
 /// Executes `history` on ONE fresh Nexus. Steps before `check_from` are only
@@ -557,10 +326,13 @@ fn run_history(
             continue;
         }
         let (spec, before) = match carried.take() {
-            Some(carried) => carried,
+            Some((mut spec, mut state)) => {
+                report.queries += dump::retarget(&nx, &mut spec, &mut state);
+                (spec, state)
+            }
             None => {
                 let now = dump::elements(&nx, None);
-                let spec = dump::spec_from(&nx, &now);
+                let spec = dump::spec_from(&nx, &now, dump::Window::STEP);
                 let before = dump::dump(&nx, &spec, Some(now));
                 report.queries += before.len() as u64 + 1;
                 (spec, before)
@@ -574,7 +346,8 @@ fn run_history(
         let after = dump::dump(&nx, &spec, None);
         report.queries += after.len() as u64 + 2;
         let replay = replay_json(world, &report.steps, tpl);
-        let (violations, changed) = check_step(template, step.mode, &outcome, seq_before, seq_after, &before, &after, &replay);
+        let judged = Judged { name: template.name, shape: template.shape };
+        let (violations, changed) = check_step(judged, step.mode, &outcome, seq_before, seq_after, &before, &after, &replay);
         report.outcomes.push(outcome.clone());
         report.checked.push(StepReport { index: i, outcome, violations, changed });
         if changed {
@@ -828,7 +601,7 @@ fn main() {
          any state-changing statement forces a rebuild; a history is extended only if its last step changed the observable state \
          (quick: committed or refused-but-changed, from the seeded Space, one prefix per shape class, second statement in commit mode and — once per shape class, where the dry run reaches the commit step — dry_run mode; thorough: also no_effect commits, every level-1 history, both Spaces, PREVIEW where it can carry the statement); distinct = (initial state, prefix, prefix outcomes, template, mode, outcome)",
     );
-    run.assume("the DUMP (KQL over every kind and state incl. `pending`, counts, beliefs/slots pinned FOR TIME, DESCRIBE/LIST/HISTORY/CHANGES/SNAPSHOT/SEARCH, DESCRIBE TRANSACTION and HISTORY ELEMENT probes, AS OF reads at every earlier sequence) is what 'a query, meta command or historical read can observe'; the Governance audit (host API only) is not part of it");
+    run.assume("the DUMP (KQL over every kind and state incl. `pending`, counts, beliefs/slots pinned FOR TIME, DESCRIBE/LIST/HISTORY/CHANGES/SNAPSHOT/SEARCH, DESCRIBE TRANSACTION and HISTORY ELEMENT probes, AS OF reads at every journalled sequence and at the number the judged statement itself takes or burns) is what 'a query, meta command or historical read can observe'; the Governance audit (host API only) is not part of it");
     run.assume("statement parameters are resolved from the state before the statement by the harness (ids by logical key)");
     run.finish();
 }
